@@ -35,7 +35,11 @@ def _spec_to_frames(spec):
             raise InvalidScenario("len")
         r = random.Random(int(f.get("pseed", 0)) * 7919 + n)
         op = int(f["op"])
-        if op == 8 and n >= 2:
+        if f.get("bad"):
+            if f["bad"] not in ("code999", "len1", "reason") or op != 8:
+                raise InvalidScenario("bad frame kind")
+            payload = {"code999": b"\x03\xe7", "len1": b"\x03", "reason": b"\x03\xe8\xff\xfe\xfd\x80"}[f["bad"]]
+        elif op == 8 and n >= 2:
             payload = b"\x03\xe8" + bytes(r.choice(b"abcdefgh ") for _ in range(n - 2))
         elif op == 1 or (op == 0 and in_text):
             payload = bytes(r.choice(b"abcdefghijklmnop 0123456789") for _ in range(n))
@@ -132,6 +136,13 @@ def gen(rng):
                             n = rng.randrange(0, 200)
                     spec.append(_f(op if j == 0 else 0, n, 1 if j == k - 1 else 0, rng.random() < 0.4,
                                    rng.randrange(1 << 20)))
+    if api == "recv_frame" and rng.random() < 0.25:
+        # a frame with a legal header whose body fails validation; the caller catches the exception and reads on:
+        # the rejected frame's bytes must have been consumed exactly, the next frame starts at its true start
+        bad = rng.choice(({"fin": 1, "op": 8, "len": 2, "masked": rng.random() < 0.4, "pseed": 0, "bad": "code999"},
+                          {"fin": 1, "op": 8, "len": 1, "masked": False, "pseed": 0, "bad": "len1"},
+                          {"fin": 1, "op": 8, "len": 6, "masked": rng.random() < 0.4, "pseed": 0, "bad": "reason"}))
+        spec.insert(rng.randrange(0, len(spec) + 1), bad)
     sizes = []
     if rng.random() < 0.6:
         sizes = [rng.choice((1, 2, 3, 5, 17, 100, 1460, 4096, 16384, 65536)) for _ in range(rng.randrange(1, 6))]
@@ -153,8 +164,15 @@ def run(sc, choices=None):
         raise InvalidScenario(str(e))
     if not frames:
         raise InvalidScenario("empty")
+    nbad = sum(1 for f in sc["frames"] if f.get("bad"))
+    if nbad and api != "recv_frame":
+        raise InvalidScenario("rejected frames only through recv_frame")
     if api == "recv_frame":
-        for f in frames:
+        for f, sp in zip(frames, sc["frames"]):
+            if sp.get("bad"):
+                if R.frame_header_verdict(f) != "reject":
+                    raise InvalidScenario("bad frame is not rejected by the model")
+                continue
             if R.frame_header_verdict(f) != "ok" or (f.opcode >= 8 and (not f.fin or len(f.payload) > 125)):
                 raise InvalidScenario("frame not header-legal")
     else:
@@ -165,12 +183,29 @@ def run(sc, choices=None):
             for a in m.feed(f):
                 if a[0] in ("protocol_error", "unspec"):
                     raise InvalidScenario("illegal stream")
-    out = run_recv(int(sc.get("seed", 1)), stream, cfg, res)
-    complete, exp = check_model(res, out, frames, api, False, False, "eof", api)
+    if nbad:
+        cfg["continue_after_exc"] = True
+        cfg["max_calls"] = len(frames) + 6
+        out = run_recv(int(sc.get("seed", 1)), stream, cfg, res)
+        from ..harness import obs_value
+        from ..recvdrv import obs_matches
+        exp = []
+        for f in frames:
+            if R.frame_header_verdict(f) == "reject":
+                exp.append(["exc", "WebSocketProtocolException"])
+            else:
+                exp.append(["ret", obs_value((f.fin, f.opcode, f.payload))])
+        exp.append(["exc", "WebSocketConnectionClosedException"])
+        why = obs_matches(out["obs"], exp, True)
+        if why:
+            res.violate("frame_after_rejected_frame_misparsed", api, why)
+    else:
+        out = run_recv(int(sc.get("seed", 1)), stream, cfg, res)
+        complete, exp = check_model(res, out, frames, api, False, False, "eof", api)
     # exactly the bytes of each frame are consumed: after the i-th returned value the socket has handed out
     # exactly the bytes up to the end of the frame that completed it
     if api == "recv_frame" and not res.violations:
-        for i, c in enumerate(out["consumed_after"]):
+        for i, c in enumerate(out["consumed_after"][:len(frames)]):
             want = STD_RESP_LEN + frames[i].end
             if c != want:
                 res.violate("frame_boundary_not_respected", api,
@@ -194,5 +229,5 @@ def run(sc, choices=None):
 
 
 def sample_view(sc, r):
-    return {"api": sc["api"], "frames": [[f["fin"], f["op"], f["len"], int(bool(f.get("masked")))] for f in sc["frames"]],
+    return {"api": sc["api"], "frames": [[f["fin"], f["op"], f["len"], int(bool(f.get("masked"))), f.get("bad")] for f in sc["frames"]],
             "chunk_sizes": sc.get("sizes"), "read_caps": sc.get("read_caps")}
